@@ -93,7 +93,7 @@ def query_event(ev, s, o, h, op, shape, arg, g, method, dtype_variant):
     e = ev("Query", h=h, opname=op, shape=list(shape), arg=[list(a) if is_tgt else a for a in arg],
            method=method if is_tgt else "", out_shape=[], out=[], scalar_out=[], scalar_exact=True,
            scalar_type_ok=True, alias_out=[], alias_exact=True,
-           post=dict(sd.EMPTY_POST), arg_after=[], arg_bitwise_same=True)
+           post=dict(sd.EMPTY_POST), arg_after=[], arg_bitwise_same=True, fresh_out=[], fresh_exact=True)
     try:
         if is_tgt:
             flat = np.array([a[0] / a[1] for a in arg], dtype=float)
@@ -121,6 +121,14 @@ def query_event(ev, s, o, h, op, shape, arg, g, method, dtype_variant):
             e["arg_after"] = [back.get(float(x), -999) for x in after]
         # object state after the call
         e["post"] = sd.alpha_obj(s, sd.inv_map(g))
+        # the same call on a freshly built equal object: the result may not depend on what was
+        # asked of this object before
+        fresh = sd.build(o, g)
+        rf_ = call(fresh, o, op, keep.copy() if isinstance(keep, np.ndarray) and keep.ndim else arr, g, method)
+        e["fresh_out"] = proj_out(op, rf_, projt)
+        a1 = np.asarray(rf_.matrix if op == "cm" else rf_, dtype=float)
+        a2 = np.asarray(res.matrix if op == "cm" else res, dtype=float)
+        e["fresh_exact"] = bool(a1.shape == a2.shape and np.array_equal(a1, a2, equal_nan=True))
         if not scalar_ops:
             # the scalar call on every element
             outs, exact = [], True
